@@ -482,6 +482,30 @@ func checkWriters(cs *drv.Case, v cval, want []byte) bool {
 	if l := v.length(); l != len(want) {
 		return fail("length-function", fmt.Sprintf("advertised length %d, wire encoding has %d bytes", l, len(want)))
 	}
+	// strings and binaries have a second pair of length / writer functions (the no-copy variants): without a direct
+	// writer attached they are the same encoding and the same length
+	if v.K == kString || v.K == kBinary {
+		x := thrift.Binary
+		var l2, n2 int
+		b2 := make([]byte, len(want))
+		if v.K == kString {
+			l2 = x.StringLengthNocopy(string(v.S))
+			if l2 == len(want) {
+				n2 = x.WriteStringNocopy(b2, nil, string(v.S))
+			}
+		} else {
+			l2 = x.BinaryLengthNocopy(v.S)
+			if l2 == len(want) {
+				n2 = x.WriteBinaryNocopy(b2, nil, v.S)
+			}
+		}
+		if l2 != len(want) {
+			return fail("length-function", fmt.Sprintf("the no-copy length function advertises %d, the wire encoding has %d bytes", l2, len(want)))
+		}
+		if n2 != len(want) || !bytes.Equal(b2, want) {
+			return fail("inplace-writer", fmt.Sprintf("the no-copy writer without a direct writer returned %d and wrote %s", n2, hexOf(b2[:minInt(len(b2), 64)])))
+		}
+	}
 	cn := san.NewCanary(len(want), len(want), func(int) byte { return 0xCC })
 	n := v.writeInPlace(cn.Buf())
 	if n != len(want) || !bytes.Equal(cn.Buf(), want) {
@@ -551,9 +575,16 @@ func c01Sequence(cs *drv.Case, vals []cval, sched int, withData bool) {
 	}
 	yw := bufiox.NewBytesWriter(&target)
 	bw2 := thrift.NewBufferWriter(yw)
+	// ... and over a foreign bufiox.Writer that keeps WriteBinary payloads by reference and looks at nothing before Flush
+	zw := &doubles.ZCWriter{}
+	bw3 := thrift.NewBufferWriter(zw)
 	for i, v := range vals {
 		if err := v.writeStream(bw); err != nil {
 			cs.Fail("stream-writer-error", M{"kind": kindNames[v.K]}, desc(i))
+			return
+		}
+		if err := v.writeStream(bw3); err != nil {
+			cs.Fail("stream-writer-error", M{"kind": kindNames[v.K], "sink": "zero-copy writer"}, desc(i))
 			return
 		}
 		if err := v.writeStream(bw2); err != nil {
@@ -573,8 +604,14 @@ func c01Sequence(cs *drv.Case, vals []cval, sched int, withData bool) {
 		return
 	}
 	yw.Flush()
+	zw.Flush()
 	bw.Recycle()
 	bw2.Recycle()
+	bw3.Recycle()
+	if !bytes.Equal(zw.Out, stream) {
+		cs.Fail("stream-writer-bytes", M{"sink": "zero-copy writer"}, M{"message": fmt.Sprintf("a bufiox.Writer that keeps WriteBinary payloads by reference until Flush received %d bytes, reference %d; first difference at %d", len(zw.Out), len(stream), firstDiff(zw.Out, stream))})
+		return
+	}
 	if got := sink.All(); !bytes.Equal(got, stream) {
 		d := firstDiff(got, stream)
 		k := 0
